@@ -129,6 +129,22 @@ SemToks(f) == AllToks(<< [name |-> Nm(0), ty |-> "", tych |-> <<>>, e |-> f[0]],
                          [name |-> Nm(1), ty |-> "", tych |-> <<>>, e |-> f[1]],
                          [name |-> Nm(2), ty |-> "", tych |-> <<>>, e |-> f[2]] >>, Style)
 
+\* the same reference graphs among rules that are NAMED LIKE BUILT-INS (a grammar may redefine every built-in that is
+\* not a keyword: its own definition is then the one in force, for the validator's walks too), with a fourth, atomic
+\* rule that uses the first of them in the scan idiom `(!name ~ ANY)*` - the shape the optimizer's skip pass looks into
+BN(i) == CASE i = 0 -> "ASCII_ALPHA" [] i = 1 -> "ASCII_ALPHANUMERIC" [] OTHER -> "NEWLINE"
+BCp(i) == CASE i = 0 -> <<65, 83, 67, 73, 73, 95, 65, 76, 80, 72, 65>> [] i = 1 -> <<65, 83, 67, 73, 73, 95, 65, 76, 80, 72, 65, 78, 85, 77, 69, 82, 73, 67>> [] OTHER -> <<78, 69, 87, 76, 73, 78, 69>>
+RECURSIVE RenB(_)
+RenB(e) == CASE e.t = "id" -> (IF e.n = "r0" THEN Id(BN(0), BCp(0)) ELSE IF e.n = "r1" THEN Id(BN(1), BCp(1)) ELSE IF e.n = "r2" THEN Id(BN(2), BCp(2)) ELSE e)
+             [] e.t \in {"seq", "alt"} -> [e EXCEPT !.a = RenB(e.a), !.b = RenB(e.b)]
+             [] e.t \in {"rep", "opt", "not"} -> [e EXCEPT !.a = RenB(e.a)]
+             [] OTHER -> e
+ScanOn(i) == [t |-> "rep", a |-> [t |-> "seq", a |-> [t |-> "not", a |-> Id(BN(i), BCp(i))], b |-> Id("ANY", <<65, 78, 89>>)]]
+SemToksB(f, wty, wch) == AllToks(<< [name |-> BCp(0), ty |-> "", tych |-> <<>>, e |-> RenB(f[0])],
+                                   [name |-> BCp(1), ty |-> "", tych |-> <<>>, e |-> RenB(f[1])],
+                                   [name |-> BCp(2), ty |-> "", tych |-> <<>>, e |-> RenB(f[2])],
+                                   [name |-> <<119>>, ty |-> wty, tych |-> wch, e |-> ScanOn(0)] >>, Style)
+
 RECURSIVE H(_)
 H(ts) == IF ts = <<>> THEN 11 ELSE (31 * H(Tail(ts)) + Len(ts[1]) + (IF ts[1] = <<>> THEN 0 ELSE ts[1][1])) % 1009
 
@@ -138,6 +154,10 @@ Cases == UNION { { f \in Faults(AllToks(RulesOf(e), Style)) : H(f.toks) % NShard
          \* ... and, in EVERY shard, the rule sets in which all three rules have the same shape and refer to the rule d places
          \* further on (d = 0: each to itself): every shape as a self-reference, as a two-cycle neighbour and as a three-cycle
          \cup { [kind |-> "none", at |-> 0, toks |-> SemToks([i \in 0..2 |-> ShapeOn(k, (i + d) % 3)])] : k \in 1..8, d \in 0..2 }
+         \cup { [kind |-> "none", at |-> 0, toks |-> SemToksB([i \in 0..2 |-> ShapeOn(k, (i + d) % 3)], w[1], w[2])] :
+                  k \in 1..8, d \in 0..2, w \in { <<"@", <<64>>>>, <<"", <<>>>> } }
+         \* ... and two-cycles between the first two of them (the third stands aside)
+         \cup { [kind |-> "none", at |-> 0, toks |-> SemToksB([i \in 0..2 |-> IF i = 2 THEN X ELSE ShapeOn(k, 1 - i)], "@", <<64>>)] : k \in 1..8 }
 
 Init == c \in Cases
 Next == UNCHANGED c
